@@ -1692,12 +1692,17 @@ class UTPM(Ring, RawAlgorithmsMixIn):
 
         if out is None:
             out = self.zeros_like()
+            src = self.data
+        else:
+            # a buffer of the caller (possibly self): the vacated coefficients are zero afterwards
+            src = self.data.copy()
+            out.data[...] = 0
 
         if s <= 0:
-            out.data[:s,...] = self.data[-s:,...]
+            out.data[:s,...] = src[-s:,...]
 
         else:
-            out.data[s:,...] = self.data[:-s,...]
+            out.data[s:,...] = src[:-s,...]
 
         return out
 
